@@ -95,6 +95,23 @@ class PreloadedUnionMatcher(CombinationMatcher):
             self._offset = 0
         self._a = a
 
+    def copy(self):
+        # The score array is never modified after it is built, so the copy
+        # can share it; only the position is separate
+        m = self.__class__.__new__(self.__class__)
+        CombinationMatcher.__init__(m, [subm.copy() for subm
+                                        in self._submatchers],
+                                    boost=self._boost)
+        m._doccount = self._doccount
+        m._a = self._a
+        m._offset = self._offset
+        m._docnum = self._docnum
+        return m
+
+    def reset(self):
+        # The first slot of the array always holds the first matching document
+        self._docnum = self._offset
+
     def is_active(self):
         return self._docnum - self._offset < len(self._a)
 
@@ -187,6 +204,28 @@ class ArrayUnionMatcher(CombinationMatcher):
         return ("%s(%r, boost=%f, scored=%r, partsize=%d)"
                 % (self.__class__.__name__, self._submatchers, self._boost,
                    self._scored, self._partsize))
+
+    def copy(self):
+        # The sub-matchers have already been read up to the end of the
+        # current part, so the copy needs its own copy of the buffered scores
+        m = self.__class__.__new__(self.__class__)
+        CombinationMatcher.__init__(m, [subm.copy() for subm
+                                        in self._submatchers],
+                                    boost=self._boost)
+        m._scored = self._scored
+        m._doccount = self._doccount
+        m._partsize = self._partsize
+        m._a = array("d", self._a)
+        m._docnum = self._docnum
+        m._offset = self._offset
+        m._limit = self._limit
+        return m
+
+    def reset(self):
+        for subm in self._submatchers:
+            subm.reset()
+        self._docnum = self._min_id()
+        self._read_part()
 
     def _min_id(self):
         active = [subm for subm in self._submatchers if subm.is_active()]
